@@ -218,7 +218,7 @@ def parse_fn_block(lines):
                     raise TemplateError("bad rw: %s" % d)
                 count = None
                 if len(words) > 4:
-                    count = words[4] if words[4] in ("+", "?") else int(words[4])
+                    count = words[4] if words[4] in ("+", "?") else (None if words[4] == "*" else int(words[4]))
                 else:
                     count = "+"
                 sections.append(("rw", (words[1], words[3], count), ""))
